@@ -21,6 +21,8 @@ class Num (α : Type) where
   eq : α → α → Bool
   ofNat : Nat → α
   isNaN : α → Bool
+  /-- `std::isfinite` -/
+  isFinite : α → Bool
   /-- natural logarithm; only used by the concrete k2 scale function (never by a theorem) -/
   log : α → α
 
@@ -47,6 +49,7 @@ instance : Num Float where
   eq a b := a == b
   ofNat := Float.ofNat
   isNaN := Float.isNaN
+  isFinite := Float.isFinite
   log := Float.log
 
 instance : Num Float32 where
@@ -59,6 +62,7 @@ instance : Num Float32 where
   eq a b := a == b
   ofNat := Float32.ofNat
   isNaN := Float32.isNaN
+  isFinite := Float32.isFinite
   log := Float32.log
 
 /-- exact arithmetic.  `log` is a dummy (the theorems take the scale function as an abstract parameter). -/
@@ -72,6 +76,7 @@ instance : Num Rat where
   eq a b := decide (a = b)
   ofNat n := (n : Rat)
   isNaN _ := false
+  isFinite _ := true
   log _ := 0
 
 instance : Conv Float Float := ⟨id, id⟩
